@@ -215,6 +215,34 @@ def prove(prop_id, mods, extra_targets=("wvdriver",), native_ok=()):
     return res
 
 
+def import_closure(mods):
+    """the WV.* modules reachable from `mods` through `import` lines (source scan)"""
+    seen = []
+    todo = list(mods)
+    while todo:
+        m = todo.pop()
+        if m in seen or not m.startswith("WV"):
+            continue
+        f = os.path.join(LEAN, *m.split(".")) + ".lean"
+        if not os.path.exists(f):
+            continue
+        seen.append(m)
+        for l in open(f):
+            mm = re.match(r"\s*(?:public\s+)?import\s+(WV[\w.]*)", l)
+            if mm:
+                todo.append(mm.group(1))
+    return sorted(seen)
+
+
+def recheck(mods, timeout=3000):
+    """thorough tier: Lean's independent re-checker replays every declaration of the property's modules and of
+    everything of ours they import (generated tables, models, lemmas) through the kernel again"""
+    closure = import_closure(mods)
+    t0 = time.time()
+    rc, out = lake(["env", "leanchecker"] + closure, timeout=timeout)
+    return dict(ok=rc == 0, modules=closure, seconds=round(time.time() - t0, 1), log=out[-2000:])
+
+
 # ---------------------------------------------------------------------------
 # step 3: correspondence
 
@@ -334,6 +362,14 @@ def run_check(mod, tier="quick", seed=0, replay=None):
                native_ok=tuple(getattr(mod, "NATIVE_DECIDE_MODULES", ())))
     log(f"[{pid}] prove: build_ok={pr['build_ok']} driver_ok={pr['driver_ok']} theorems={len(pr['theorems'])} "
         f"forbidden={len(pr['forbidden'])} bad_axioms={len(pr['bad_axioms'])}")
+    if tier == "thorough" and pr["build_ok"]:
+        rk = recheck(mod.PROP_MODULES)
+        pr["leanchecker"] = {k: rk[k] for k in ("ok", "modules", "seconds")}
+        log(f"[{pid}] leanchecker: ok={rk['ok']} modules={len(rk['modules'])} in {rk['seconds']}s")
+        if not rk["ok"]:
+            pr["ok"] = False
+            pr["build_ok"] = False
+            pr["log"] += "\n--- leanchecker ---\n" + rk["log"]
     if not pr["ok"]:
         log(pr["log"][-3000:])
         for h in pr["forbidden"]:
@@ -449,6 +485,8 @@ def run_check(mod, tier="quick", seed=0, replay=None):
         "wall_s": round(time.time() - t0, 2),
         "violations": len(new_viol),
     }
+    if "leanchecker" in pr:
+        ev["coverage"]["leanchecker"] = pr["leanchecker"]
     extra = getattr(mod, "evidence_extra", None)
     if extra is not None:
         try:
